@@ -32,7 +32,25 @@ type D struct {
 
 //go:generate go run github.com/reedom/convergen@v0.7.0
 type Convergen interface {
-	// ToD copies.
+	// ToD copies 100% of the fields (%d, %s and %% are only text here).
+	ToD(*S) *D
+}
+`,
+	"undeflit": `//go:build convergen
+
+package pk
+
+type S struct {
+	A int
+}
+
+type D struct {
+	A     int
+	Owner string
+}
+
+type Convergen interface {
+	// :literal Owner defaultOwner
 	ToD(*S) *D
 }
 `,
